@@ -196,6 +196,15 @@ impl ZoneCursorLoader {
 
                 let mut payload_fields = HashMap::new();
                 for field in &schema_fields {
+                    // A flush writes no column files for a field that none of the segment's events
+                    // carried (an optional field left out everywhere). Every row reads as null then,
+                    // as it does on the query path; it is not a reason to fail the compaction.
+                    let column_path = segment_dir.join(format!("{}_{}.col", self.uid, field));
+                    if !column_path.exists() {
+                        payload_fields
+                            .insert(field.clone(), vec![ScalarValue::Null; context_ids.len()]);
+                        continue;
+                    }
                     let snapshot = ColumnReader::load_for_zone_snapshot(
                         &segment_dir,
                         segment_id,
@@ -206,7 +215,12 @@ impl ZoneCursorLoader {
                     )?;
                     let phys = snapshot.physical_type();
                     let key: ColumnKey = (event_type_name.clone(), field.clone());
-                    let values: Vec<ScalarValue> = snapshot.into_scalar_values();
+                    let mut values: Vec<ScalarValue> = snapshot.into_scalar_values();
+                    if values.is_empty() {
+                        // The column exists in the segment but holds no block for this zone (no
+                        // row of the zone carried the field): all rows of the zone are null.
+                        values = vec![ScalarValue::Null; context_ids.len()];
+                    }
                     payload_fields.insert(field.clone(), values);
                     type_catalog.record_if_absent(&key, phys);
                 }
